@@ -519,7 +519,9 @@ pub fn do_navigate_command_string(mathml: Element, nav_command: &'static str) ->
             return;
         }
 
-        let (top_position, top_command) = nav_state.pop().unwrap();
+        let Some( (top_position, top_command) ) = nav_state.pop() else {
+            return;     // nothing was pushed (MoveLastLocation took the only entry)
+        };
         let mut count = count-1;
         loop {
             // debug!("  ... loop count={}", count);
